@@ -594,11 +594,11 @@ func c04ShutdownGuarded(out *vOut, detail string, f func(context.Context) error)
 	select {
 	case err := <-done:
 		if err != nil {
-			out.Oracle("e2e-shutdown", "", detail+" err="+err.Error())
+			out.Oracle("e2e-shutdown", c04NoCase, detail+" err="+err.Error())
 		}
 	case <-time.After(30 * time.Second):
 		c04E2EStuck = true
-		out.Oracle("e2e-shutdown-hang", "", detail+": Shutdown did not return within 30 s although every export returns at once")
+		out.Oracle("e2e-shutdown-hang", c04NoCase, detail+": Shutdown did not return within 30 s although every export returns at once")
 	}
 }
 
@@ -655,13 +655,13 @@ func c04EndToEnd(out *vOut, g *c04Gen, traces bool) {
 		sink := &consumertest.TracesSink{}
 		exp, err := NewTraces(ctx, set, &struct{}{}, sink.ConsumeTraces, WithQueue(qCfg))
 		if err != nil || exp.Start(ctx, componenttest.NewNopHost()) != nil {
-			out.Oracle("e2e-setup", "", detail)
+			out.Oracle("e2e-setup", c04NoCase, detail)
 			return
 		}
 		for _, t := range trees {
 			want = append(want, sg.obs(sg.build(t), szt).flat(true)...)
 			if err := exp.ConsumeTraces(ctx, c04BuildTraces(t)); err != nil {
-				out.Oracle("e2e-send", "", detail+" err="+err.Error())
+				out.Oracle("e2e-send", c04NoCase, detail+" err="+err.Error())
 			}
 		}
 		c04ShutdownGuarded(out, detail, exp.Shutdown)
@@ -673,13 +673,13 @@ func c04EndToEnd(out *vOut, g *c04Gen, traces bool) {
 		sink := &consumertest.LogsSink{}
 		exp, err := NewLogs(ctx, set, &struct{}{}, sink.ConsumeLogs, WithQueue(qCfg))
 		if err != nil || exp.Start(ctx, componenttest.NewNopHost()) != nil {
-			out.Oracle("e2e-setup", "", detail)
+			out.Oracle("e2e-setup", c04NoCase, detail)
 			return
 		}
 		for _, t := range trees {
 			want = append(want, sg.obs(sg.build(t), szt).flat(true)...)
 			if err := exp.ConsumeLogs(ctx, c04BuildLogs(t)); err != nil {
-				out.Oracle("e2e-send", "", detail+" err="+err.Error())
+				out.Oracle("e2e-send", c04NoCase, detail+" err="+err.Error())
 			}
 		}
 		c04ShutdownGuarded(out, detail, exp.Shutdown)
@@ -689,7 +689,7 @@ func c04EndToEnd(out *vOut, g *c04Gen, traces bool) {
 		}
 	}
 	if !c04SameMultiset(want, got) {
-		out.Oracle("e2e-conservation", "", fmt.Sprintf("%s sent=%d exported=%d batches=%d", detail, len(want), len(got), nb))
+		out.Oracle("e2e-conservation", c04NoCase, fmt.Sprintf("%s sent=%d exported=%d batches=%d", detail, len(want), len(got), nb))
 	}
 	out.Stat("e2e.histories", 1)
 	out.Stat("e2e.batches", nb)
@@ -728,7 +728,7 @@ func TestVerifC04(t *testing.T) {
 	bs := &sizer.LogsBytesSizer{}
 	for x := 0; x <= (1<<21)+(1<<10); x++ {
 		if bs.DeltaSize(x) != 1+x+c04SovRef(uint64(x)) {
-			out.Oracle("deltasize", "", fmt.Sprintf("DeltaSize(%d)=%d", x, bs.DeltaSize(x)))
+			out.Oracle("deltasize", c04NoCase, fmt.Sprintf("DeltaSize(%d)=%d", x, bs.DeltaSize(x)))
 			break
 		}
 	}
